@@ -145,3 +145,115 @@ Theorem C09_verified_oracle_returns_the_minimum :
   end.
 Proof. exact min_cover_correct. Qed.
 Print Assumptions C09_verified_oracle_returns_the_minimum.
+
+(* Dilworth's theorem for MinPathCover (Dilworth.v).  The order: edge x is before edge y when both are edges of the graph and
+   the tail of y is reachable from the head of x.  In a finite strict partial order a chain cover and an antichain of the same
+   size exist (abstract theorem, Galvin's induction); a chain of edges lies on ONE source-to-sink path; antichains of the order are
+   exactly the sets of edges that no path of the graph passes together ([incompatible_in], the graph-relative form of
+   [incompatible_edges], which quantifies over every duplicate-free node list and is therefore stronger).  Hence the least number
+   of paths of a cover equals the largest size of such a set, and that is the number MinPathCover returns. *)
+From FP Require Import Dilworth DilworthErr.
+Theorem C09_dilworth_finite_partial_order :
+  forall (T : Type) (eqb : T -> T -> bool), (forall a b, eqb a b = true <-> a = b) ->
+  forall (ltb : T -> T -> bool), (forall a, ltb a a = false) -> (forall a b c, ltb a b = true -> ltb b c = true -> ltb a c = true) ->
+  forall X : list T, NoDup X ->
+  exists (C : list (list T)) (A : list T),
+    (forall c, In c C -> chain T ltb c /\ incl c X /\ c <> []) /\ covers T C X /\
+    NoDup A /\ incl A X /\ antichain T ltb A /\ length A = length C.
+Proof. exact dilworth. Qed.
+Print Assumptions C09_dilworth_finite_partial_order.
+
+Theorem C09_antichains_of_the_reachability_order_are_the_incompatible_sets :
+  forall (B : path_inst) (rank : node -> nat),
+  (forall u v, In (u, v) (g_edges (p_graph B)) -> (rank u < rank v)%nat) ->
+  forall A', incl A' (g_edges (p_graph B)) ->
+  (order_antichain (g_edges (p_graph B)) A' <-> incompatible_in (g_edges (p_graph B)) A').
+Proof. exact antichain_iff_incompatible. Qed.
+Print Assumptions C09_antichains_of_the_reachability_order_are_the_incompatible_sets.
+
+Theorem C09_incompatible_edges_are_incompatible_in_every_graph :
+  forall G A', incompatible_edges A' -> incompatible_in G A'.
+Proof. exact incompatible_edges_in. Qed.
+Print Assumptions C09_incompatible_edges_are_incompatible_in_every_graph.
+
+Theorem C09_cover_has_at_least_width_many_paths :
+  forall (B : path_inst) (ignore A' : list PathEnc.edge) (P : N -> list node),
+  NoDup A' -> incompatible_in (g_edges (p_graph B)) A' ->
+  (forall e, In e A' -> In e (g_edges (p_graph B)) /\ mem_edge e ignore = false) ->
+  path_cover B ignore P -> (length A' <= p_k B)%nat.
+Proof. exact cover_needs_width_many_paths. Qed.
+Print Assumptions C09_cover_has_at_least_width_many_paths.
+
+Theorem C09_min_path_cover_equals_width_st_graph :
+  forall (B : path_inst) (ignore : list PathEnc.edge) (rank : node -> nat) (Rm : nat),
+  NoDup (g_edges (p_graph B)) ->
+  (forall u v, In (u, v) (g_edges (p_graph B)) -> (rank u < rank v)%nat) -> (forall v, (rank v <= Rm)%nat) ->
+  (forall u v, In (u, v) (g_edges (p_graph B)) -> u = g_src (p_graph B) \/ exists w, In (w, u) (g_edges (p_graph B))) ->
+  (forall u v, In (u, v) (g_edges (p_graph B)) -> v = g_snk (p_graph B) \/ exists w, In (v, w) (g_edges (p_graph B))) ->
+  exists (k : nat) (P : N -> list node) (A' : list PathEnc.edge),
+    path_cover (set_k B k) ignore P /\
+    NoDup A' /\ (forall e, In e A' -> In e (g_edges (p_graph B)) /\ mem_edge e ignore = false) /\
+    incompatible_in (g_edges (p_graph B)) A' /\ length A' = k.
+Proof. exact min_path_cover_equals_width_st. Qed.
+Print Assumptions C09_min_path_cover_equals_width_st_graph.
+
+Theorem C09_min_path_cover_equals_width :
+  forall (V : list node) (E : list PathEnc.edge) (s t : node) (topo : list node),
+  ~ In s V -> ~ In t V -> s <> t -> (forall e, In e E -> In (fst e) V /\ In (snd e) V) -> NoDup V -> NoDup E ->
+  (forall u v, In (u, v) E -> (posn topo u < posn topo v)%nat) ->
+  exists k,
+    (exists P, path_cover (cover_inst V E s t k) (synth V E s t) P) /\
+    (forall k', (k' < k)%nat -> ~ exists P, path_cover (cover_inst V E s t k') (synth V E s t) P) /\
+    (exists A', NoDup A' /\ incl A' E /\ incompatible_in (Aug.aug_edges V E [] [] s t) A' /\ length A' = k).
+Proof. exact min_path_cover_equals_width. Qed.
+Print Assumptions C09_min_path_cover_equals_width.
+
+Theorem C09_minpathcover_returns_the_width :
+  forall (V : list node) (E : list PathEnc.edge) (s t : node) (Pa Sa : list (node * list node)) (topo : list node)
+         (feasible : nat -> bool) (lb : nat) (sts : list raw),
+  NoDup V -> (forall e, In e E -> In (fst e) V /\ In (snd e) V) -> ~ In s V -> ~ In t V -> s <> t ->
+  Peel.peel_inputs_ok E Pa Sa topo = true ->
+  (forall k, feasible k = true <-> exists a, sat a (encode_kpc (cover_inst V E s t k) (synth V E s t))) ->
+  (forall i, (i < S (length E) - lb)%nat -> exists x, nth_error sts i = Some x /\
+             status_of x = if feasible (lb + i)%nat then Optimal else Infeasible) ->
+  (forall k, (k < lb)%nat -> feasible k = false) ->
+  exists kopt,
+    so_res (mpc_solve true lb (S (length E)) sts) = Solved kopt /\
+    (exists A', NoDup A' /\ incl A' E /\ incompatible_in (Aug.aug_edges V E [] [] s t) A' /\ length A' = kopt) /\
+    (forall A', NoDup A' -> incl A' E -> incompatible_in (Aug.aug_edges V E [] [] s t) A' -> (length A' <= kopt)%nat).
+Proof. exact minpathcover_returns_the_width. Qed.
+Print Assumptions C09_minpathcover_returns_the_width.
+
+Theorem C09_kminpatherror_feasible_from_the_width_on :
+  forall (V : list node) (E : list PathEnc.edge) (s t : node) (Pa Sa : list (node * list node)) (topo : list node)
+         (feasible : nat -> bool) (lb : nat) (sts : list raw)
+         (f : PathEnc.edge -> Z) (ign : list PathEnc.edge) (scale : list (PathEnc.edge * Q)),
+  NoDup V -> (forall e, In e E -> In (fst e) V /\ In (snd e) V) -> ~ In s V -> ~ In t V -> s <> t ->
+  Peel.peel_inputs_ok E Pa Sa topo = true ->
+  (forall k, feasible k = true <-> exists a, sat a (encode_kpc (cover_inst V E s t k) (synth V E s t))) ->
+  (forall i, (i < S (length E) - lb)%nat -> exists x, nth_error sts i = Some x /\
+             status_of x = if feasible (lb + i)%nat then Optimal else Infeasible) ->
+  (forall k, (k < lb)%nat -> feasible k = false) ->
+  (forall e, In e E -> (0 <= f e)%Z) -> (forall es, In es scale -> (0 <= snd es <= 1)%Q) ->
+  (exists e, In e E /\ mem_edge e ign = false /\ mem_edge e (map fst (filter (fun es => Qeq_bool (snd es) 0) scale)) = false) ->
+  exists w,
+    (exists A', NoDup A' /\ incl A' E /\ incompatible_in (Aug.aug_edges V E [] [] s t) A' /\ length A' = w) /\
+    (forall A', NoDup A' -> incl A' E -> incompatible_in (Aug.aug_edges V E [] [] s t) A' -> (length A' <= w)%nat) /\
+    forall k, (w <= k)%nat ->
+      exists a, sat a (ErrEnc.encode_kmpe (EndToEndErr.e2e_kmpe_inst V E s t f ign scale [] 1%Q k)).
+Proof. exact kmpe_feasible_from_width. Qed.
+Print Assumptions C09_kminpatherror_feasible_from_the_width_on.
+
+(* non-vacuity on the diamond 1 -> {2,3} -> 4 (source 0, sink 5): the premises hold, two paths cover it and the two edges leaving
+   node 1 lie on no common path, so both numbers are 2 *)
+Example C09_dilworth_premises_satisfiable :
+  ~ In 0%N xV /\ ~ In 5%N xV /\ 0%N <> 5%N /\ (forall e, In e xE -> In (fst e) xV /\ In (snd e) xV) /\ NoDup xV /\ NoDup xE /\
+  (forall u v, In (u, v) xE -> (posn [1; 2; 3; 4]%N u < posn [1; 2; 3; 4]%N v)%nat).
+Proof. exact diamond_premises. Qed.
+Print Assumptions C09_dilworth_premises_satisfiable.
+
+Example C09_dilworth_diamond_width_is_two :
+  (exists P, path_cover (cover_inst xV xE 0%N 5%N 2) (synth xV xE 0%N 5%N) P) /\
+  (exists A', NoDup A' /\ incl A' xE /\ incompatible_in (Aug.aug_edges xV xE [] [] 0%N 5%N) A' /\ length A' = 2%nat).
+Proof. exact diamond_width_two. Qed.
+Print Assumptions C09_dilworth_diamond_width_is_two.
